@@ -186,9 +186,39 @@ func genFloat(t *rapid.T) Case {
 	return c
 }
 
+// genWide scales an integer configuration to one end of the float64 range (or
+// leaves it around zero with subnormal nudges): products of differences underflow
+// or overflow there, and classification must still be exact. Point accuracy is
+// not in scope (the statement's "rounding distance" presumes no overflow).
+func genWide(t *rapid.T) Case {
+	c := genInt(t)
+	e := rapid.SampledFrom([]int{-1074, -1060, -1040, -1022, -1000, -560, -540, -520, 480, 500, 512, 980, 1000, 1002}).Draw(t, "wexp")
+	for i := range c.P {
+		for j := range c.P[i] {
+			v := math.Ldexp(c.P[i][j].V(), e)
+			v = nudge(v, rapid.IntRange(-2, 2).Draw(t, "ulps"))
+			if math.IsInf(v, 0) || math.IsNaN(v) {
+				v = math.Copysign(math.MaxFloat64, v)
+			}
+			c.P[i][j] = model.Of(v)
+		}
+	}
+	if c.P[0] == c.P[1] {
+		c.P[1][0] = model.Of(nudge(c.P[1][0].V(), 5))
+	}
+	if c.P[2] == c.P[3] {
+		c.P[3][1] = model.Of(nudge(c.P[3][1].V(), 5))
+	}
+	c.Class = "wide:" + c.Class
+	c.Integer = false
+	return c
+}
+
 func genCase(t *rapid.T) Case {
 	var c Case
-	if rapid.IntRange(0, 3).Draw(t, "float") == 0 {
+	if k := rapid.IntRange(0, 7).Draw(t, "float"); k == 0 {
+		c = genWide(t)
+	} else if k <= 2 {
 		c = genFloat(t)
 	} else {
 		c = genInt(t)
@@ -302,14 +332,17 @@ func prop(c Case) error {
 				return fmt.Errorf("%s: point intersection with %d points", what, len(pts))
 			}
 			x := wantPts[0]
-			atEndpoint := -1
+			atEndpoint, copied := -1, false
 			for i := range P {
 				if P[i].Eq(x) {
 					atEndpoint = i
+					// several endpoints may sit at that position (the shared one of both
+					// segments; 0 and -0 are one position): a copy of any of them is exact
+					copied = copied || bitsEq(pts[0], c.P[i])
 				}
 			}
 			if atEndpoint >= 0 {
-				if !bitsEq(pts[0], c.P[atEndpoint]) {
+				if !copied {
 					return fmt.Errorf("%s: intersection is the endpoint %v but %v was reported", what, co(c.P[atEndpoint]), pts[0])
 				}
 			} else if c.Integer {
